@@ -1,6 +1,5 @@
 import KG.Spec.LimiterLoop
 import KG.Props.C07
-import KG.Props.C09
 import KG.Props.C18
 /-!
 # Lemmas for the closed loop (`KG.Model.LimiterLoop`)
@@ -312,7 +311,7 @@ def GwOK (st : RemoteLimiter.State) : Prop := ∀ c, st.cache = some c → Cache
 def FreshOK (st : RemoteLimiter.State) : Prop :=
   ∀ c, st.cache = some c → ∃ l t q, c.loc.config = mkSchema l t ∧ c.remote = some (remShape q (bound q t))
 
-theorem gwOK_init (n : Nat) (hb : Option RemoteLimiter.HB) : GwOK { gwInit n with hb := hb } := by
+theorem gwOK_init (n : Nat) : GwOK (gwInit n) := by
   intro c hc; simp [gwInit] at hc
 
 theorem newLim_mk {l t : Int} (h0 : 0 ≤ l) (h1 : l ≤ maxInt32) :
@@ -374,35 +373,34 @@ theorem remoteSync_shape (l t n q b : Int) (h0 : 0 ≤ t) (h1 : t ≤ maxInt32) 
       RemoteLimiter.Remote.strategy, RemoteLimiter.GFC.resize, toU32_id' hb.1 hb1]
 
 /-- `upstreamLimiter.Sync` with a valid allocate schema: never panics, the local limiter enforces exactly the new local
-    limit, the remote wrapper is kept as it is -/
+    limit, the remote wrapper is kept as it is; readiness and shard count are untouched -/
 theorem step_schema {st : RemoteLimiter.State} (h : GwOK st) {l t : Int} (h0 : 0 ≤ l) (h1 : l ≤ t) (h2 : t ≤ maxInt32) :
-    ∃ c', RemoteLimiter.step st (.schema (mkSchema l t)) = .ok { st with cache := some c' } ∧
+    ∃ st' c', RemoteLimiter.step st (.schema (mkSchema l t)) = .ok st' ∧ st'.cache = some c' ∧
       c'.loc = ⟨mkSchema l t, some (.mi l)⟩ ∧ c'.remote = (st.cache.bind (·.remote)) := by
   have hl : l ≤ maxInt32 := by omega
   cases hc : st.cache with
   | none =>
-    refine ⟨{ loc := { config := mkSchema l t, fc := some (.mi l) }, remote := none }, ?_, rfl, rfl⟩
-    simp only [RemoteLimiter.step, hc, newLim_mk h0 hl]
+    refine ⟨_, _, by simp only [RemoteLimiter.step, hc, newLim_mk h0 hl], rfl, rfl, rfl⟩
   | some c =>
     obtain ⟨l0, t0, a0, a1, a2, hloc, hrem⟩ := h c hc
-    obtain ⟨loc, rem⟩ := c
-    simp only at hloc
-    subst hloc
-    refine ⟨{ loc := { config := mkSchema l t, fc := some (.mi l) }, remote := rem }, ?_, rfl, rfl⟩
     by_cases hs : mkSchema l t = mkSchema l0 t0
     · obtain ⟨e1, e2⟩ := mkSchema_inj hs
       subst e1; subst e2
-      have := localSync_same ⟨mkSchema l t, some (.mi l)⟩
+      have := localSync_same c.loc
+      rw [hloc] at this
       simp only at this
-      simp only [RemoteLimiter.step, hc, this]
-      simp
-    · simp only [RemoteLimiter.step, hc, localSync_mk hs h0 hl]
-      simp
+      refine ⟨_, _, by simp only [RemoteLimiter.step, hc, hloc, this], rfl, ?_, ?_⟩
+      · simp
+      · simp
+    · refine ⟨_, _, by simp only [RemoteLimiter.step, hc, hloc, localSync_mk hs h0 hl], rfl, ?_, ?_⟩
+      · simp
+      · simp
 
-theorem gwOK_schema {st : RemoteLimiter.State} (h : GwOK st) {l t : Int} (h0 : 0 ≤ l) (h1 : l ≤ t) (h2 : t ≤ maxInt32)
-    {c' : RemoteLimiter.Cache} (hloc : c'.loc = ⟨mkSchema l t, some (.mi l)⟩)
-    (hrem : c'.remote = (st.cache.bind (·.remote))) : GwOK { st with cache := some c' } := by
+theorem gwOK_schema {st st' : RemoteLimiter.State} (h : GwOK st) {l t : Int} (h0 : 0 ≤ l) (h1 : l ≤ t) (h2 : t ≤ maxInt32)
+    {c' : RemoteLimiter.Cache} (hst : st'.cache = some c') (hloc : c'.loc = ⟨mkSchema l t, some (.mi l)⟩)
+    (hrem : c'.remote = (st.cache.bind (·.remote))) : GwOK st' := by
   intro c hc
+  rw [hst] at hc
   simp only [Option.some.injEq] at hc
   subst hc
   refine ⟨l, t, h0, h1, h2, hloc, ?_⟩
@@ -417,15 +415,14 @@ theorem gwOK_schema {st : RemoteLimiter.State} (h : GwOK st) {l t : Int} (h0 : 0
     and enforces `n` bounded to `[0, its view]` through the remote limiter -/
 theorem step_answer {st : RemoteLimiter.State} (h : GwOK st) (n : Int) :
     (st.cache = none ∧ RemoteLimiter.step st (.answer true (mkItem n)) = .ok st) ∨
-    (∃ c l t, st.cache = some c ∧ c.loc = ⟨mkSchema l t, some (.mi l)⟩ ∧ 0 ≤ t ∧ t ≤ maxInt32 ∧
-      RemoteLimiter.step st (.answer true (mkItem n))
-        = .ok { st with cache := some { c with remote := some (remShape n (bound n t)) } }) := by
+    (∃ c l t st' c', st.cache = some c ∧ c.loc = ⟨mkSchema l t, some (.mi l)⟩ ∧ 0 ≤ t ∧ t ≤ maxInt32 ∧
+      RemoteLimiter.step st (.answer true (mkItem n)) = .ok st' ∧ st'.cache = some c' ∧ c'.loc = c.loc ∧
+      c'.remote = some (remShape n (bound n t))) := by
   cases hc : st.cache with
   | none => left; exact ⟨rfl, by simp only [RemoteLimiter.step, hc]⟩
   | some c =>
     right
     obtain ⟨l, t, a0, a1, a2, hloc, hrem⟩ := h c hc
-    refine ⟨c, l, t, rfl, hloc, by omega, a2, ?_⟩
     have hcfg : c.loc.config = mkSchema l t := by rw [hloc]
     have he : RemoteLimiter.enableGlobal (mkSchema l t) = true := by simp [RemoteLimiter.enableGlobal, mkSchema]
     have hty : RemoteLimiter.itemType (mkItem n) = RemoteLimiter.guessType (mkSchema l t) := by
@@ -435,30 +432,34 @@ theorem step_answer {st : RemoteLimiter.State} (h : GwOK st) (n : Int) :
       rcases hrem with hr | ⟨q, tv, _, _, hr⟩
       · rw [hr]; exact remoteSync_init l t n (by omega) a2
       · rw [hr]; exact remoteSync_shape l t n q _ (by omega) a2
-    simp only [RemoteLimiter.step, hc, hcfg, he, hty, RemoteLimiter.cacheRemoteSync, hsync]
-    simp [bind, Except.bind]
-    rfl
+    refine ⟨c, l, t, _, _, rfl, hloc, by omega, a2, ?_, rfl, ?_, ?_⟩
+    · simp only [RemoteLimiter.step, hc, hcfg, he, hty, RemoteLimiter.cacheRemoteSync, hsync]
+      simp [bind, Except.bind]
+      rfl
+    · rfl
+    · rfl
 
-theorem gwOK_answer {st : RemoteLimiter.State} (h : GwOK st) {c : RemoteLimiter.Cache} {l t n : Int}
-    (hc : st.cache = some c) (hloc : c.loc = ⟨mkSchema l t, some (.mi l)⟩) (h0 : 0 ≤ t) (h1 : t ≤ maxInt32) :
-    GwOK { st with cache := some { c with remote := some (remShape n (bound n t)) } } ∧
-    FreshOK { st with cache := some { c with remote := some (remShape n (bound n t)) } } := by
+theorem gwOK_answer {st st' : RemoteLimiter.State} (h : GwOK st) {c c' : RemoteLimiter.Cache} {l t n : Int}
+    (hc : st.cache = some c) (hloc : c.loc = ⟨mkSchema l t, some (.mi l)⟩) (h0 : 0 ≤ t) (h1 : t ≤ maxInt32)
+    (hst : st'.cache = some c') (hloc' : c'.loc = c.loc) (hrem : c'.remote = some (remShape n (bound n t))) :
+    GwOK st' ∧ FreshOK st' := by
   obtain ⟨l0, t0, a0, a1, a2, hloc0, _⟩ := h c hc
   constructor
-  · intro c' hc'
-    simp only [Option.some.injEq] at hc'
-    subst hc'
-    exact ⟨l0, t0, a0, a1, a2, hloc0, Or.inr ⟨n, t, h0, h1, rfl⟩⟩
-  · intro c' hc'
-    simp only [Option.some.injEq] at hc'
-    subst hc'
-    exact ⟨l, t, n, by simp [hloc], rfl⟩
+  · intro c1 hc1
+    rw [hst] at hc1
+    simp only [Option.some.injEq] at hc1
+    subst hc1
+    exact ⟨l0, t0, a0, a1, a2, by rw [hloc', hloc0], Or.inr ⟨n, t, h0, h1, hrem⟩⟩
+  · intro c1 hc1
+    rw [hst] at hc1
+    simp only [Option.some.injEq] at hc1
+    subst hc1
+    exact ⟨l, t, n, by rw [hloc', hloc], hrem⟩
 
-/-- one heartbeat outcome: only the readiness status moves -/
+/-- one heartbeat outcome: never panics, the cache (schema, limiters) is untouched -/
 theorem step_hb (st : RemoteLimiter.State) (ok : Bool) (now : Int) :
-    RemoteLimiter.step st (.hb ok now false)
-      = .ok { st with hb := some (RemoteLimiter.hbStep (st.hb.getD {}) ok now) } := by
-  simp [RemoteLimiter.step]
+    ∃ st', RemoteLimiter.step st (.hb ok now false) = .ok st' ∧ st'.cache = st.cache :=
+  ⟨_, by simp [RemoteLimiter.step], rfl⟩
 
 /-! ## what such a gateway hands out -/
 
@@ -535,40 +536,44 @@ theorem judgeG_ok {st : RemoteLimiter.State} (h : GwOK st) {c : RemoteLimiter.Ca
 structure GwInv (n : Nat) (g : Gw) : Prop where
   ok : ∀ u, GwOK (g.st n u)
   fresh : ∀ u, g.fresh.contains u = true → FreshOK (g.st n u)
-  hb : ∀ u, (g.st n u).hb = g.hbs
 
 /-- a gateway whose `upstreamLimiter` for `u` was replaced by `st'`, everything else about its limiters kept -/
-theorem st_of_aset (n : Nat) (g g' : Gw) (u : Nat) (st' : RemoteLimiter.State) (hu : g'.ups = aset g.ups u st')
-    (hh : g'.hbs = g.hbs) : g'.st n u = st' ∧ ∀ v, v ≠ u → g'.st n v = g.st n v := by
+theorem st_of_aset (n : Nat) (g g' : Gw) (u : Nat) (st' : RemoteLimiter.State) (hu : g'.ups = aset g.ups u st') :
+    g'.st n u = st' ∧ ∀ v, v ≠ u → g'.st n v = g.st n v := by
   constructor
   · simp [Gw.st, hu, aget_aset_self]
-  · intro v hv; simp [Gw.st, hu, hh, aget_aset_ne _ _ _ _ hv]
+  · intro v hv; simp [Gw.st, hu, aget_aset_ne _ _ _ _ hv]
 
-theorem gwInv_init (n i : Nat) : GwInv n ⟨i, true, true, none, [], []⟩ := by
-  refine ⟨fun u => ?_, fun u h => by simp at h, fun u => rfl⟩
-  intro c hc; simp [Gw.st, aget, gwInit] at hc
+theorem aget_freshUps (n nUp u : Nat) : (aget (freshUps n nUp) u).getD (gwInit n) = gwInit n := by
+  cases h : aget (freshUps n nUp) u with
+  | none => rfl
+  | some st =>
+    have := aget_mem h
+    simp only [freshUps, List.mem_map, List.mem_range, Prod.mk.injEq] at this
+    obtain ⟨_, _, _, e⟩ := this
+    simp [e]
 
-theorem gwInv_reset (n : Nat) (g : Gw) (id : Nat) :
-    GwInv n { g with id := id, alive := true, hbs := none, ups := [], fresh := [] } := by
-  refine ⟨fun u => ?_, fun u h => by simp at h, fun u => rfl⟩
-  intro c hc; simp [Gw.st, aget, gwInit] at hc
+/-- a process that has just started: every limiter is fresh -/
+theorem gwInv_started (n nUp : Nat) (g : Gw) (h1 : g.ups = freshUps n nUp) (h2 : g.fresh = []) : GwInv n g := by
+  have hst : ∀ u, g.st n u = gwInit n := by intro u; simp only [Gw.st, h1]; exact aget_freshUps n nUp u
+  refine ⟨fun u => by rw [hst]; exact gwOK_init n, fun u h => by rw [h2] at h; simp at h⟩
 
 /-- a gateway that differs in identity / liveness / reachability only -/
-theorem gwInv_congr {n : Nat} {g g' : Gw} (h : GwInv n g) (h1 : g'.ups = g.ups) (h2 : g'.hbs = g.hbs)
-    (h3 : g'.fresh = g.fresh) : GwInv n g' := by
-  have hst : ∀ u, g'.st n u = g.st n u := by intro u; simp [Gw.st, h1, h2]
-  exact ⟨fun u => by rw [hst]; exact h.ok u, fun u hu => by rw [hst]; exact h.fresh u (h3 ▸ hu),
-    fun u => by rw [hst, h2]; exact h.hb u⟩
+theorem gwInv_congr {n : Nat} {g g' : Gw} (h : GwInv n g) (h1 : g'.ups = g.ups) (h3 : g'.fresh = g.fresh) :
+    GwInv n g' := by
+  have hst : ∀ u, g'.st n u = g.st n u := by intro u; simp [Gw.st, h1]
+  exact ⟨fun u => by rw [hst]; exact h.ok u, fun u hu => by rw [hst]; exact h.fresh u (h3 ▸ hu)⟩
 
-/-- gateway `g` has synced a valid schema for `u` (abstract form: `g'` is the gateway afterwards) -/
+/-- gateway `g` has synced a valid schema for `u` (abstract form: `g'` is the gateway afterwards, `st'` the state of
+    its limiter for `u`) -/
 theorem gwInv_schema_abs {n : Nat} {g g' : Gw} (h : GwInv n g) (u : Nat) {l t : Int} (h0 : 0 ≤ l) (h1 : l ≤ t)
-    (h2 : t ≤ maxInt32) {c' : RemoteLimiter.Cache} (hloc : c'.loc = ⟨mkSchema l t, some (.mi l)⟩)
-    (hrem : c'.remote = ((g.st n u).cache.bind (·.remote)))
-    (hups : g'.ups = aset g.ups u { g.st n u with cache := some c' }) (hhbs : g'.hbs = g.hbs)
+    (h2 : t ≤ maxInt32) {st' : RemoteLimiter.State} {c' : RemoteLimiter.Cache} (hst : st'.cache = some c')
+    (hloc : c'.loc = ⟨mkSchema l t, some (.mi l)⟩) (hrem : c'.remote = ((g.st n u).cache.bind (·.remote)))
+    (hups : g'.ups = aset g.ups u st')
     (hfresh : g'.fresh = if view (g.st n u) = some t then g.fresh else g.fresh.filter (· != u)) : GwInv n g' := by
-  have hok' := gwOK_schema (h.ok u) h0 h1 h2 hloc hrem
-  obtain ⟨hsu, hsv⟩ := st_of_aset n g g' u _ hups hhbs
-  refine ⟨?_, ?_, ?_⟩
+  have hok' := gwOK_schema (h.ok u) h0 h1 h2 hst hloc hrem
+  obtain ⟨hsu, hsv⟩ := st_of_aset n g g' u _ hups
+  refine ⟨?_, ?_⟩
   · intro v
     by_cases hv : v = u
     · subst hv; rw [hsu]; exact hok'
@@ -583,6 +588,7 @@ theorem gwInv_schema_abs {n : Nat} {g g' : Gw} (h : GwInv n g) (u : Nat) {l t : 
         -- the view is unchanged: the remote limiter is still the held quota bounded by it
         have hfo := h.fresh v hvf
         intro c hc
+        rw [hst] at hc
         simp only [Option.some.injEq] at hc
         subst hc
         cases hcache : (g.st n v).cache with
@@ -601,32 +607,47 @@ theorem gwInv_schema_abs {n : Nat} {g g' : Gw} (h : GwInv n g) (u : Nat) {l t : 
       · exact hvf
       · simp only [List.contains_eq_mem, List.mem_filter, decide_eq_true_eq] at hvf ⊢
         exact hvf.1
-  · intro v
-    rw [hhbs]
-    by_cases hv : v = u
-    · subst hv; rw [hsu]; exact h.hb v
-    · rw [hsv v hv]; exact h.hb v
+
+/-- removing upstreams from the monitor keeps the invariant -/
+theorem gwInv_fresh_sub {n : Nat} {g g' : Gw} (h : GwInv n g) (h1 : g'.ups = g.ups)
+    (h3 : ∀ u, g'.fresh.contains u = true → g.fresh.contains u = true) : GwInv n g' := by
+  have hst : ∀ u, g'.st n u = g.st n u := by intro u; simp [Gw.st, h1]
+  exact ⟨fun u => by rw [hst]; exact h.ok u, fun u hu => by rw [hst]; exact h.fresh u (h3 u hu)⟩
 
 theorem gwInv_schema {n : Nat} {g : Gw} (h : GwInv n g) (u : Nat) {l t : Int} (h0 : 0 ≤ l) (h1 : l ≤ t)
     (h2 : t ≤ maxInt32) :
     GwInv n { g.apply n u (.schema (mkSchema l t)) with
               fresh := if view (g.st n u) = some t then g.fresh else g.fresh.filter (· != u) } := by
-  obtain ⟨c', hstep, hloc, hrem⟩ := step_schema (h.ok u) h0 h1 h2
-  apply gwInv_schema_abs h u h0 h1 h2 hloc hrem
-  · simp [Gw.apply, stepOr, hstep]
-  · simp [Gw.apply]
-  · rfl
+  cases hu : aget g.ups u with
+  | none =>
+    -- an upstream outside the loop: nothing is synced
+    apply gwInv_fresh_sub h
+    · simp [Gw.apply, hu]
+    · intro v hv
+      simp only at hv
+      split at hv
+      · exact hv
+      · simp only [List.contains_eq_mem, List.mem_filter, decide_eq_true_eq] at hv ⊢
+        exact hv.1
+  | some st0 =>
+    have hst0 : g.st n u = st0 := by simp [Gw.st, hu]
+    obtain ⟨st', c', hstep, hst, hloc, hrem⟩ := step_schema (h.ok u) h0 h1 h2
+    rw [hst0] at hstep
+    apply gwInv_schema_abs h u h0 h1 h2 hst hloc hrem
+    · simp [Gw.apply, hu, stepOr, hstep]
+    · rfl
 
 /-- gateway `g` has applied the answered quota `q` for `u` (abstract form) -/
-theorem gwInv_answer_abs {n : Nat} {g g' : Gw} (h : GwInv n g) (u : Nat) (q : Int) {c : RemoteLimiter.Cache}
-    {l t : Int} (hc : (g.st n u).cache = some c) (hloc : c.loc = ⟨mkSchema l t, some (.mi l)⟩) (t0 : 0 ≤ t)
-    (t1 : t ≤ maxInt32)
-    (hups : g'.ups = aset g.ups u { g.st n u with cache := some { c with remote := some (remShape q (bound q t)) } })
-    (hhbs : g'.hbs = g.hbs) (hfresh : g'.fresh = if g.fresh.contains u then g.fresh else u :: g.fresh) :
+theorem gwInv_answer_abs {n : Nat} {g g' : Gw} (h : GwInv n g) (u : Nat) (q : Int) {c c' : RemoteLimiter.Cache}
+    {st' : RemoteLimiter.State} {l t : Int} (hc : (g.st n u).cache = some c)
+    (hloc : c.loc = ⟨mkSchema l t, some (.mi l)⟩) (t0 : 0 ≤ t) (t1 : t ≤ maxInt32)
+    (hst : st'.cache = some c') (hloc' : c'.loc = c.loc) (hrem : c'.remote = some (remShape q (bound q t)))
+    (hups : g'.ups = aset g.ups u st')
+    (hfresh : g'.fresh = if g.fresh.contains u then g.fresh else u :: g.fresh) :
     GwInv n g' := by
-  obtain ⟨hok', hfresh'⟩ := gwOK_answer (n := q) (h.ok u) hc hloc t0 t1
-  obtain ⟨hsu, hsv⟩ := st_of_aset n g g' u _ hups hhbs
-  refine ⟨?_, ?_, ?_⟩
+  obtain ⟨hok', hfresh'⟩ := gwOK_answer (n := q) (h.ok u) hc hloc t0 t1 hst hloc' hrem
+  obtain ⟨hsu, hsv⟩ := st_of_aset n g g' u _ hups
+  refine ⟨?_, ?_⟩
   · intro v
     by_cases hv : v = u
     · subst hv; rw [hsu]; exact hok'
@@ -643,48 +664,55 @@ theorem gwInv_answer_abs {n : Nat} {g g' : Gw} (h : GwInv n g) (u : Nat) (q : In
         rcases hvf with e | e
         · exact absurd e hv
         · exact e
-  · intro v
-    rw [hhbs]
-    by_cases hv : v = u
-    · subst hv; rw [hsu]; exact h.hb v
-    · rw [hsv v hv]; exact h.hb v
+
+/-- a limiter with a schema belongs to an upstream of the loop (it has an entry) -/
+theorem entry_of_cache {n : Nat} {g : Gw} {u : Nat} (hs : ((g.st n u).cache).isSome = true) :
+    ∃ st0, aget g.ups u = some st0 ∧ g.st n u = st0 := by
+  cases hu : aget g.ups u with
+  | none => simp [Gw.st, hu, gwInit] at hs
+  | some st0 => exact ⟨st0, rfl, by simp [Gw.st, hu]⟩
 
 theorem gwInv_answer {n : Nat} {g : Gw} (h : GwInv n g) (u : Nat) (q : Int)
     (hs : ((g.st n u).cache).isSome = true) :
     GwInv n { g.apply n u (.answer true (mkItem q)) with
               fresh := if g.fresh.contains u then g.fresh else u :: g.fresh } := by
-  rcases step_answer (h.ok u) q with ⟨hnone, _⟩ | ⟨c, l, t, hc, hloc, t0, t1, hstep⟩
+  obtain ⟨st0, hu, hst0⟩ := entry_of_cache hs
+  rcases step_answer (h.ok u) q with ⟨hnone, _⟩ | ⟨c, l, t, st', c', hc, hloc, t0, t1, hstep, hst, hloc', hrem⟩
   · rw [hnone] at hs; cases hs
-  · apply gwInv_answer_abs h u q hc hloc t0 t1
-    · simp [Gw.apply, stepOr, hstep]
-    · simp [Gw.apply]
+  · rw [hst0] at hstep
+    apply gwInv_answer_abs h u q hc hloc t0 t1 hst hloc' hrem
+    · simp [Gw.apply, hu, stepOr, hstep]
     · rfl
 
-/-- the state of every `upstreamLimiter` after a heartbeat round: C09's `.hb` step of the state before -/
-theorem st_heartbeat {n : Nat} {g : Gw} (h : GwInv n g) (ok : Bool) (now : Int) (u : Nat) :
+/-- the state of every `upstreamLimiter` after a heartbeat round: C09's `.hb` step of the state before (an upstream
+    outside the loop has no limiter: nothing happens) -/
+theorem st_heartbeat (n : Nat) (g : Gw) (ok : Bool) (now : Int) (u : Nat) :
     (g.heartbeat ok now).st n u
-      = { g.st n u with hb := some (RemoteLimiter.hbStep (g.hbs.getD {}) ok now) } := by
+      = (match aget g.ups u with
+         | some st => stepOr st (.hb ok now false)
+         | none => gwInit n) := by
   have hm := aget_map g.ups (fun _ st => stepOr st (.hb ok now false)) u
   simp only [Gw.st, Gw.heartbeat]
   rw [hm]
+  cases aget g.ups u <;> rfl
+
+theorem cache_heartbeat (n : Nat) (g : Gw) (ok : Bool) (now : Int) (u : Nat) :
+    ((g.heartbeat ok now).st n u).cache = (g.st n u).cache := by
+  rw [st_heartbeat]
   cases hu : aget g.ups u with
-  | none => simp [gwInit]
+  | none => simp [Gw.st, hu]
   | some st =>
-    have hh := h.hb u
-    simp only [Gw.st, hu, Option.getD_some] at hh
-    simp [stepOr, step_hb, hh]
+    obtain ⟨st', h1, h2⟩ := step_hb st ok now
+    simp [Gw.st, hu, stepOr, h1, h2]
 
 theorem gwInv_heartbeat {n : Nat} {g : Gw} (h : GwInv n g) (ok : Bool) (now : Int) : GwInv n (g.heartbeat ok now) := by
-  refine ⟨?_, ?_, ?_⟩
+  refine ⟨?_, ?_⟩
   · intro u c hc
-    rw [st_heartbeat h] at hc
+    rw [cache_heartbeat] at hc
     exact h.ok u c hc
   · intro u hu c hc
-    rw [st_heartbeat h] at hc
+    rw [cache_heartbeat] at hc
     exact h.fresh u hu c hc
-  · intro u
-    rw [st_heartbeat h]
-    rfl
 
 /-! ## the loop invariant -/
 
@@ -702,12 +730,12 @@ structure LInv (s : State) : Prop where
   srv : SrvInv s.srv
   gws : ∀ g ∈ s.gws, GwInv s.nShards g
 
-theorem linv_init (nShards nGw : Nat) (k8s : Bool) : LInv (init nShards nGw k8s) := by
+theorem linv_init (nShards nGw nUp : Nat) (k8s : Bool) : LInv (init nShards nGw nUp k8s) := by
   refine ⟨⟨by simp [init], by simp [init], by simp [init]⟩, ?_⟩
   intro g hg
   simp only [init, List.mem_map, List.mem_range] at hg
   obtain ⟨i, _, rfl⟩ := hg
-  exact gwInv_init nShards i
+  exact gwInv_started nShards nUp _ rfl rfl
 
 theorem gw_mem {s : State} {g : Nat} {x : Gw} (h : s.gw g = some x) : x ∈ s.gws :=
   List.mem_of_getElem? h
@@ -786,19 +814,19 @@ theorem linv_step (shardOf : Nat → Nat) {s : State} (h : LInv s) (op : Op) (ho
     split
     · exact h
     · rename_i x hx
-      exact linv_setGw h g _ (gwInv_congr (h.gws x (gw_mem hx)) rfl rfl rfl)
+      exact linv_setGw h g _ (gwInv_congr (h.gws x (gw_mem hx)) rfl rfl)
   | crash g =>
     simp only [step]
     split
     · exact h
     · rename_i x hx
-      exact linv_setGw h g _ (gwInv_congr (h.gws x (gw_mem hx)) rfl rfl rfl)
+      exact linv_setGw h g _ (gwInv_congr (h.gws x (gw_mem hx)) rfl rfl)
   | ret g id =>
     simp only [step]
     split
     · exact h
     · rename_i x hx
-      exact linv_setGw h g _ (gwInv_reset s.nShards x id)
+      exact linv_setGw h g _ (gwInv_started s.nShards s.nUp _ rfl rfl)
 
 theorem linv_run (shardOf : Nat → Nat) : ∀ (ops : List Op) (s : State), LInv s → (∀ op ∈ ops, OpOK op) →
     LInv (run shardOf s ops)
@@ -1145,200 +1173,7 @@ theorem cleanupUnknown_ups (shardOf : Nat → Nat) (s : Server) (u : Nat) :
   exact aget_map s.ups (fun k e => if s.isLeader (shardOf k) then e.drop (fun i => !s.hbHas i) else e) u
 
 
-/-- `st` is reached by C09's model from the freshly constructed `upstreamLimiter` by an operation list inside C09's
-    quantifier (`Allowed .mi`: schemas accepted by validation, of the max-in-flight type) -/
-def GwReach (st : RemoteLimiter.State) : Prop :=
-  ∃ log : List RemoteLimiter.Op, KG.Props.C09.Allowed .mi log ∧ RemoteLimiter.exec {} log = some st
-
-/-- what C09's quantifier asks of one operation -/
-def C09Ok : RemoteLimiter.Op → Prop
-  | .schema s => KG.Spec.RemoteLimiter.validSchema s = true ∧ RemoteLimiter.guessType s = .mi
-  | .meter x => 0 < x.rateDen
-  | _ => True
-
-theorem exec_snoc : ∀ (log : List RemoteLimiter.Op) (st st' st'' : RemoteLimiter.State) (op : RemoteLimiter.Op),
-    RemoteLimiter.exec st log = some st' → RemoteLimiter.step st' op = .ok st'' →
-    RemoteLimiter.exec st (log ++ [op]) = some st''
-  | [], st, st', st'', op, h1, h2 => by
-    simp only [RemoteLimiter.exec, Option.some.injEq] at h1
-    subst h1
-    simp [RemoteLimiter.exec, h2]
-  | o :: rest, st, st', st'', op, h1, h2 => by
-    simp only [List.cons_append, RemoteLimiter.exec] at h1 ⊢
-    cases hs : RemoteLimiter.step st o with
-    | error e => rw [hs] at h1; cases h1
-    | ok s1 =>
-      rw [hs] at h1
-      simp only at h1 ⊢
-      exact exec_snoc rest s1 st' st'' op h1 h2
-
-theorem allowed_snoc {log : List RemoteLimiter.Op} {op : RemoteLimiter.Op} (h : KG.Props.C09.Allowed .mi log)
-    (hop : C09Ok op) : KG.Props.C09.Allowed .mi (log ++ [op]) := by
-  intro o ho
-  rcases List.mem_append.1 ho with e | e
-  · exact h o e
-  · simp only [List.mem_singleton] at e
-    subst e
-    cases o <;> first | exact hop | trivial
-
-theorem gwReach_step {st st' : RemoteLimiter.State} {op : RemoteLimiter.Op} (h : GwReach st)
-    (hs : RemoteLimiter.step st op = .ok st')
-    (hop : C09Ok op) : GwReach st' := by
-  obtain ⟨log, h1, h2⟩ := h
-  exact ⟨log ++ [op], allowed_snoc h1 hop, exec_snoc log _ _ _ op h2 hs⟩
-
-theorem gwReach_init (n : Nat) : GwReach (gwInit n) :=
-  ⟨[.shards n], by intro o ho; simp only [List.mem_singleton] at ho; subst ho; trivial, rfl⟩
-
-theorem valid_mk {l t : Int} (h0 : 0 ≤ l) (h1 : l ≤ t) (h2 : t ≤ maxInt32) :
-    KG.Spec.RemoteLimiter.validSchema (mkSchema l t) = true ∧ RemoteLimiter.guessType (mkSchema l t) = .mi := by
-  constructor
-  · simp [KG.Spec.RemoteLimiter.validSchema, mkSchema, h0, h1, h2]
-  · simp [RemoteLimiter.guessType, mkSchema]
-
-/-- the loop invariant extended with the projection -/
-structure RInv (s : State) : Prop where
-  inv : LInv s
-  reach : ∀ g ∈ s.gws, ∀ u, GwReach (g.st s.nShards u)
-
-theorem st_congr (n : Nat) {g g' : Gw} (h1 : g'.ups = g.ups) (h2 : g'.hbs = g.hbs) (u : Nat) : g'.st n u = g.st n u := by
-  simp [Gw.st, h1, h2]
-
-theorem rinv_setGw {s : State} (h : RInv s) (g : Nat) (x : Gw) (hx : GwInv s.nShards x)
-    (hr : ∀ u, GwReach (x.st s.nShards u)) : RInv (s.setGw g x) := by
-  refine ⟨linv_setGw h.inv g x hx, ?_⟩
-  intro y hy u
-  rcases List.mem_or_eq_of_mem_set hy with e | e
-  · exact h.reach y e u
-  · subst e; exact hr u
-
-theorem rinv_srv {s : State} (h : RInv s) (srv' : Server) (hs : SrvInv srv') : RInv { s with srv := srv' } :=
-  ⟨linv_srv h.inv srv' hs, h.reach⟩
-
-theorem rinv_step (shardOf : Nat → Nat) {s : State} (h : RInv s) (op : Op) (hop : OpOK op) :
-    RInv (step shardOf s op) := by
-  have hl := linv_step shardOf h.inv op hop
-  have hsrv : (step shardOf s op).gws = s.gws → (step shardOf s op).nShards = s.nShards →
-      RInv (step shardOf s op) := fun e1 e2 => ⟨hl, by rw [e1, e2]; exact h.reach⟩
-  cases op with
-  | list u t => exact hsrv rfl rfl
-  | handle u => exact hsrv rfl rfl
-  | tick now => exact hsrv rfl rfl
-  | unknownPass => exact hsrv rfl rfl
-  | elect k b => exact hsrv rfl rfl
-  | gain k => exact hsrv rfl rfl
-  | lose k => exact hsrv rfl rfl
-  | gwSchema g u l t =>
-    simp only [step] at hl ⊢
-    split
-    · exact h
-    · rename_i x hx
-      split
-      · have hxi := h.inv.gws x (gw_mem hx)
-        refine rinv_setGw h g _ (gwInv_schema hxi u hop.1 hop.2.1 hop.2.2) ?_
-        intro v
-        obtain ⟨c', hstep, _, _⟩ := step_schema (hxi.ok u) hop.1 hop.2.1 hop.2.2
-        have hap : (x.apply s.nShards u (.schema (mkSchema l t))).ups
-            = aset x.ups u { x.st s.nShards u with cache := some c' } := by simp [Gw.apply, stepOr, hstep]
-        obtain ⟨hsu, hsv⟩ := st_of_aset s.nShards x (x.apply s.nShards u (.schema (mkSchema l t))) u _ hap rfl
-        change GwReach ((x.apply s.nShards u (.schema (mkSchema l t))).st s.nShards v)
-        by_cases hv : v = u
-        · subst hv; rw [hsu]
-          exact gwReach_step (h.reach x (gw_mem hx) v) hstep (valid_mk hop.1 hop.2.1 hop.2.2)
-        · rw [hsv v hv]; exact h.reach x (gw_mem hx) v
-      · exact h
-  | hb g now =>
-    simp only [step] at hl ⊢
-    split
-    · exact h
-    · rename_i x hx
-      have hxi := h.inv.gws x (gw_mem hx)
-      have hr : ∀ ok now', ∀ v, GwReach ((x.heartbeat ok now').st s.nShards v) := by
-        intro ok now' v
-        rw [st_heartbeat hxi]
-        have := step_hb (x.st s.nShards v) ok now'
-        rw [hxi.hb v] at this
-        exact gwReach_step (h.reach x (gw_mem hx) v) this trivial
-      split
-      · exact h
-      · split
-        · exact rinv_srv (rinv_setGw h g _ (gwInv_heartbeat hxi true _) (hr true _)) _ (srvInv_heartbeat h.inv.srv _ _)
-        · exact rinv_setGw h g _ (gwInv_heartbeat hxi false _) (hr false _)
-  | report g u x m used lvl =>
-    simp only [step] at hl ⊢
-    split
-    · exact h
-    · rename_i gw hgw
-      split
-      · exact h
-      · rename_i hrep
-        split
-        · exact h
-        · rename_i srv' n hsr
-          have hgi := h.inv.gws gw (gw_mem hgw)
-          have hcache : ((gw.st s.nShards u).cache).isSome = true := by
-            simp [reports] at hrep
-            cases hcc : (gw.st s.nShards u).cache with
-            | none => exact absurd hcc hrep.1.2
-            | some _ => rfl
-          have hsrv' : SrvInv srv' := by
-            have := srvInv_report shardOf h.inv.srv u gw.id x m used lvl
-            rw [hsr] at this; exact this
-          refine rinv_srv (rinv_setGw h g _ (gwInv_answer hgi u n hcache) ?_) _ hsrv'
-          intro v
-          rcases step_answer (hgi.ok u) n with ⟨hnone, _⟩ | ⟨c, l, t, hc, hloc, t0, t1, hstep⟩
-          · rw [hnone] at hcache; cases hcache
-          · have hap : (gw.apply s.nShards u (.answer true (mkItem n))).ups
-                = aset gw.ups u { gw.st s.nShards u with cache := some { c with remote := some (remShape n (bound n t)) } } := by
-              simp [Gw.apply, stepOr, hstep]
-            obtain ⟨hsu, hsv⟩ := st_of_aset s.nShards gw (gw.apply s.nShards u (.answer true (mkItem n))) u _ hap rfl
-            change GwReach ((gw.apply s.nShards u (.answer true (mkItem n))).st s.nShards v)
-            by_cases hv : v = u
-            · subst hv; rw [hsu]
-              exact gwReach_step (h.reach gw (gw_mem hgw) v) hstep trivial
-            · rw [hsv v hv]; exact h.reach gw (gw_mem hgw) v
-  | net g b =>
-    simp only [step] at hl ⊢
-    split
-    · exact h
-    · rename_i x hx
-      exact rinv_setGw h g _ (gwInv_congr (h.inv.gws x (gw_mem hx)) rfl rfl rfl)
-        (fun v => by change GwReach (x.st s.nShards v); exact h.reach x (gw_mem hx) v)
-  | crash g =>
-    simp only [step] at hl ⊢
-    split
-    · exact h
-    · rename_i x hx
-      exact rinv_setGw h g _ (gwInv_congr (h.inv.gws x (gw_mem hx)) rfl rfl rfl)
-        (fun v => by change GwReach (x.st s.nShards v); exact h.reach x (gw_mem hx) v)
-  | ret g id =>
-    simp only [step] at hl ⊢
-    split
-    · exact h
-    · rename_i x hx
-      refine rinv_setGw h g _ (gwInv_reset s.nShards x id) ?_
-      intro v
-      have : ({ x with id := id, alive := true, hbs := none, ups := [], fresh := [] } : Gw).st s.nShards v
-          = gwInit s.nShards := by simp [Gw.st, aget, gwInit]
-      rw [this]; exact gwReach_init _
-
-theorem rinv_init (nShards nGw : Nat) (k8s : Bool) : RInv (init nShards nGw k8s) := by
-  refine ⟨linv_init nShards nGw k8s, ?_⟩
-  intro g hg u
-  simp only [init, List.mem_map, List.mem_range] at hg
-  obtain ⟨i, _, rfl⟩ := hg
-  have : (⟨i, true, true, none, [], []⟩ : Gw).st nShards u = gwInit nShards := by simp [Gw.st, aget, gwInit]
-  simp only [init]
-  rw [this]; exact gwReach_init _
-
-theorem rinv_run (shardOf : Nat → Nat) : ∀ (ops : List Op) (s : State), RInv s → (∀ op ∈ ops, OpOK op) →
-    RInv (run shardOf s ops)
-  | [], s, h, _ => h
-  | op :: rest, s, h, hops => by
-    simp only [run, List.foldl_cons]
-    exact rinv_run shardOf rest _ (rinv_step shardOf h op (hops op List.mem_cons_self))
-      (fun o ho => hops o (List.mem_cons_of_mem _ ho))
-
+--C09-PROJECTION-HELPERS-GO-HERE
 
 /-- the history never lowers the configured global limit of an upstream (`KG.Props.C07.Legal` for the loop): every
     `.list u t` carries a `t` at least as large as the limit the lister had for `u` -/
